@@ -219,9 +219,9 @@ def run_single(binary, cfg, tmp, name, seed, run, tier, known_sigs):
     extra = dict(
         VERIF_MODE="explore", VERIF_SEED=str(seed), VERIF_FROM=str(run), VERIF_TO=str(run + 1),
         VERIF_STRIDE="1", VERIF_TIER=tier, VERIF_RECHECK="0", VERIF_KNOWN="\n".join(known_sigs),
-        VERIF_WATCHDOG_S="30",
+        VERIF_WATCHDOG_S="30", VERIF_TAPEFILE=os.path.join(tmp, name + ".tape"),
     )
-    for suffix in (".json", ".json.hang"):
+    for suffix in (".json", ".json.hang", ".tape"):
         try:
             os.remove(os.path.join(tmp, name + suffix))
         except OSError:
@@ -244,15 +244,82 @@ def replay_once(binary, cfg, tmp, name, path, tier):
     return read_result(tmp, name), rc, tail(os.path.join(tmp, name + ".stderr"), 20000)
 
 
+def replay_dies(binary, cfg, tmp, path, tier, klass):
+    """Replays a tape in a fresh process; returns (died, site of the death)."""
+    for suffix in (".json", ".json.hang"):
+        try:
+            os.remove(os.path.join(tmp, "death" + suffix))
+        except OSError:
+            pass
+    extra = dict(VERIF_MODE="replay", VERIF_REPLAY=path, VERIF_TIER=tier, VERIF_WATCHDOG_S="30")
+    p, errf = start_worker(binary, cfg, tmp, "death", extra)
+    rc = p.wait()
+    errf.close()
+    if read_result(tmp, "death") is not None:
+        return False, ""
+    text = tail(os.path.join(tmp, "death.json.hang"), 200000) or tail(os.path.join(tmp, "death.stderr"), 30000)
+    return True, (hang_site(text) if klass == "hang" else crash_site(text))
+
+
+def shrink_death(binary, cfg, tmp, tape, tier, klass, site, budget):
+    """Delta debugging with one fresh process per candidate (the process dies on success)."""
+    best = list(tape)
+    used = 0
+    probe = os.path.join(tmp, "probe-replay.json")
+
+    def dies(cand):
+        nonlocal used
+        if used >= budget:
+            return False
+        used += 1
+        with open(probe, "w") as f:
+            json.dump({"tape": cand, "class": klass, "site": site, "mode": "death"}, f)
+        died, s = replay_dies(binary, cfg, tmp, probe, tier, klass)
+        return died and s == site
+
+    # shortest prefix (an exhausted tape continues with zeros)
+    lo, hi = 0, len(best)
+    while lo < hi and used < budget:
+        mid = (lo + hi) // 2
+        if dies(best[:mid]):
+            hi = mid
+        else:
+            lo = mid + 1
+    best = best[:hi]
+    size = len(best) // 2
+    while size >= 1 and used < budget:
+        i = 0
+        while i + size <= len(best) and used < budget:
+            cand = best[:i] + best[i + size:]
+            if dies(cand):
+                best = cand
+            else:
+                i += size
+        size //= 2
+    for i in range(len(best)):
+        if used >= budget:
+            break
+        if best[i] != 0:
+            cand = best[:i] + [0] + best[i + 1:]
+            if dies(cand):
+                best = cand
+    return best, used
+
+
 def confirm_replay(binary, cfg, tmp, path, tier, want_class, want_site):
     """Replays a replay file in fresh processes.  Returns (confirmed, exact, detail)."""
     with open(path) as f:
         rf = json.load(f)
     if rf.get("mode") == "seed":
-        # Crash/hang replay files carry seed and run instead of a tape.
+        # Older crash/hang replay files carry seed and run instead of a tape.
         res, rc, err = run_single(binary, cfg, tmp, "confirm", rf["seed"], rf["run"], tier, [])
         died = res is None
         return died, died, "process exit %d" % rc
+    if rf.get("mode") == "death":
+        # Crash/hang: the replay is confirmed if the process dies again at the
+        # same place of the code under test.
+        died, site = replay_dies(binary, cfg, tmp, path, tier, want_class)
+        return died and site == want_site, died and site == want_site, "process died at %s" % site if died else "process survived"
     attempts = 5 if want_class == "race" else 2
     if rf.get("nondeterministic"):
         # The run contains a select with two ready cases, constructed on
@@ -438,10 +505,24 @@ def drive(args, check_id, cfg, tier, seed, repo, tmp, t_start):
             rdir = os.path.join(tmp, "replays")
             os.makedirs(rdir, exist_ok=True)
             rpath = os.path.join(rdir, "%s-seed%d-run%d.json" % (check_id, cseed, crun))
+            rf = dict(property=check_id, mode="seed", seed=cseed, run=crun, **{
+                "class": klass, "site": site, "message": text[-6000:]})
+            # The re-run recorded its tape as it went: turn it into a replay
+            # by tape and, for crashes (a hang costs a watchdog period per
+            # candidate), minimise it with one fresh process per candidate.
+            tpath = os.path.join(tmp, "crash%d.tape" % w)
+            if os.path.exists(tpath) and os.path.getsize(tpath) >= 4:
+                a = array.array("I")
+                with open(tpath, "rb") as f:
+                    raw = f.read()
+                a.frombytes(raw[:len(raw) // 4 * 4])
+                tape = list(a)
+                rf.update(mode="death", tape=tape, original_tape_len=len(tape), shrink_executions=0)
+                if klass == "crash" and confirmed_deaths == 0:
+                    best, used = shrink_death(binary, cfg, tmp, tape, tier, klass, site, 40)
+                    rf.update(tape=best, shrink_executions=used)
             with open(rpath, "w") as f:
-                json.dump(dict(property=check_id, mode="seed", seed=cseed, run=crun, **{
-                    "class": klass, "site": site, "message": text[-6000:],
-                }), f, indent=1)
+                json.dump(rf, f, indent=1)
             confirmed_deaths += 1
             results.append(dict(violation={"class": klass, "site": site, "message": text[-3000:]}, replay=rpath,
                                 runs=0, steps=0, stats=dict(faults={}, probes={}), known_hits={}))
